@@ -337,9 +337,11 @@ TxApplyPlans(S, tx) ==
     ELSE IF ~AllPropsExist(S, tx) THEN {<< >>}
     ELSE LET nil == {id \in tx.props : S.props[id].ph.app = "N"}
              bad == {id \in tx.props : S.props[id].ph.app = "F"}
-         IN IF nil \cup bad # {}
+         \* the apply phase of every proposal is started before a failed one fails the transaction
+         IN IF nil # {}
             THEN {<< WProp(S, id, [S.props[id] EXCEPT !.ph.app = "I"]) >> : id \in nil}                  \* TAp-start
-                 \cup {<< WTx(S, tx.i, [tx EXCEPT !.state = "FAILED", !.fail = S.props[id].fail, !.ph.app = "F"]) >> : id \in bad} \* TAp-fail
+            ELSE IF bad # {}
+            THEN {<< WTx(S, tx.i, [tx EXCEPT !.state = "FAILED", !.fail = S.props[id].fail, !.ph.app = "F"]) >> : id \in bad} \* TAp-fail
             ELSE IF \A id \in tx.props : S.props[id].ph.app = "D"
                  THEN {<< WTx(S, tx.i, [tx EXCEPT !.state = "APPLIED", !.ph.app = "D"]) >>}        \* TAp-done
                  ELSE {<< >>}
